@@ -235,7 +235,15 @@ VUNI = (1.0, 2.0, 3.0)  # as stored components (distinct: a permutation is visib
 
 
 def make_field(mesh, kind, perm, seed, renamed=False):
-    """returns (field, comp_axis) ; comp_axis[k] = index of the spatial axis component k points along (None: scalar)"""
+    """returns (field, comp_axis) ; comp_axis[k] = index of the spatial axis component k points along (None: scalar).
+    Kinds ending in '+mask' / '+allinvalid' carry a validity mask whose invalid cells hold their (non-zero) values: the
+    rotated values are Q applied to the interpolation of the ORIGINAL VALUES, validity does not enter"""
+    base, _, mk = kind.partition("+")
+    if mk:
+        f, ca = make_field(mesh, base, perm, seed, renamed)
+        nn = tuple(int(k) for k in mesh.n)
+        f.valid = C.coded_mask(nn, 4) if mk == "mask" else np.zeros(nn, dtype=bool)
+        return f, ca
     n = tuple(int(k) for k in mesh.n)
     dims = mesh.region.dims
     scale = float(np.max(mesh.cell))
@@ -662,7 +670,7 @@ INTERP_MESHES = {
     "n746-c0.3,0.3,0.1-abc": ((0.1, 0.2, -0.7), (0.3, 0.3, 0.1), (7, 4, 6), ABC),
 }
 FIELD_KINDS = ["s-tracer", "v-tracer", "s-uniform", "v-uniform", "s-linxyz", "v-linear", "s-linx", "s-liny", "s-linz",
-               "s-tracer-int"]
+               "s-tracer-int", "v-uniform+allinvalid", "s-linxyz+mask", "v-tracer+mask"]
 EXPLICIT_N = (7, 5, 6)
 
 
@@ -751,7 +759,7 @@ def unit_interp(ctx):
     ctx.note("outside-cells", no)
     if ni == 0:
         ctx.note("vacuous:no-interior-cell")
-    _analytic(ctx, o, kind, Q, g, inst, mesh)
+    _analytic(ctx, o, kind.partition("+")[0], Q, g, inst, mesh)
     # clearing restores the original
     ctx.step(1)
     rot.clear_rotation()
